@@ -12,12 +12,12 @@ def repo_commits(prefix):
 P = {
  "C01": (True,
          'runtime monitor: framing assertions (version, type code, header length = bytes = reported size) on the real encoders over generated controller messages',
-         "Tens of thousands (quick) to millions (thorough) of controller-originated messages of every kind, command variant and nesting are built through the public API and encoded by the real code; a monitor asserts version 4, the kind's type code, header length == bytes produced == Len() before and after encoding, also for the message embedded in a bundle-add. Reach comes from shape diversity (delete commands that still carry instructions/buckets, payload absent/empty/raw/typed, near-65535 sizes).",
+         "Tens of thousands (quick) to millions (thorough) of controller-originated messages of every kind, command variant and nesting are built through the public API and encoded by the real code; a monitor asserts version 4, the kind's type code, header length == bytes produced == Len() before and after encoding, also for the message embedded in a bundle-add. Reach comes from shape diversity (delete commands that still carry instructions/buckets, payload absent/empty/raw/typed, near-65535 sizes, reserved port/group values, hardware addresses of other lengths), from top-down builder histories (variable-size actions growing after they were attached) and from multipart requests re-typed after construction.",
          'Holds for the generated shapes only. Trusts the type-code table (OF1.3.5 7.1) and the reference size used to discard recipes over 65535 bytes.',
          "5/C01"),
  "C02": (True,
          'runtime monitor: every encoding is walked by an independent strict TLV walker; derived length fields are checked after every builder call',
-         "The real encoders' output for generated messages, standalone elements and builder histories is walked by a strict length-driven walker written from the specifications: every declared length, multiple-of-8 rule, zero padding and type/subtype/class/field code is checked and the walk must end exactly at the end of the message.",
+         "The real encoders' output for generated messages, standalone elements and builder histories is walked by a strict length-driven walker written from the specifications: every declared length, multiple-of-8 rule, zero padding and type/subtype/class/field code is checked and the walk must end exactly at the end of the message. Group-mods are also built top-down; NAT and conntrack builders are driven through double-set and order-dependent histories.",
          'Trusts the walker (harness/spec/ofdec.go, validated self-inverse against the reference encoder). Builder histories are bottom-up.',
          "5/C02"),
  "C03": (True,
@@ -32,12 +32,12 @@ P = {
          "5/C04"),
  "C05": (True,
          "runtime monitor: metamorphic round trip on the library alone (decode(encode(v)) == v, re-encoding byte-equal, decoded extent == bytes) through the library's own dispatchers, alone and with trailing elements, under the totality guard",
-         "Values of every two-way kind are built through the API, encoded, decoded by the dispatcher the library itself uses (parser entry point, DecodeAction, DecodeInstr, match/match-field decoders, multipart body decoders), and the decoded value's fields, re-encoding and reported extent are compared with the original.",
+         "Values of every two-way kind are built through the API, encoded, decoded by the dispatcher the library itself uses (parser entry point, DecodeAction, DecodeInstr, match/match-field decoders, multipart body decoders), and the decoded value's fields, re-encoding and reported extent are compared with the original; whole messages are also decoded into the value their constructor hands out.",
          'Two-way kinds only (the library has a decoder case). Representation-only differences are normalised. Decoders run under CPU/allocation budgets.',
          "5/C05"),
  "C06": (True,
          'runtime monitor: size = bytes and child-embedding assertions on values of all 123 encodable types found by scanning the source',
-         "Every encodable type in the four packages (the list is recomputed from /repo with go/parser on every run and uncovered types are reported) is reached by generated values; for each value and recursively each child the monitor asserts len(encoding) == Len() and that the parent's bytes are header + the children's own standalone encodings in order + zero padding.",
+         "Every encodable type in the four packages (the list is recomputed from /repo with go/parser on every run and uncovered types are reported) is reached by generated values; for each value and recursively each child the monitor asserts len(encoding) == Len() and that the parent's bytes are header + the children's own standalone encodings in order + zero padding, and that a value's own byte payload appears complete in its encoding. Top-level messages are also built top-down.",
          "Only parents' fixed header sizes come from the reference model. Well-formed values only.",
          "5/C06"),
  "C07": (True,
@@ -72,7 +72,7 @@ P = {
          "5/C12"),
  "C13": (True,
          'runtime monitor: all histories over {size query, encode} up to length 4 plus longer PRNG histories on fresh builds; outputs compared across histories; children re-encoded after their containers',
-         "For each recipe fresh values go through all 30 short histories and PRNG histories of size queries and encodings; every size answer and every encoding must agree across all histories, and children's standalone encodings must be unchanged after their containers were sized/encoded twice.",
+         "For each recipe fresh values go through all 30 short histories and PRNG histories of size queries and encodings; every size answer and every encoding must agree across all histories, and children's standalone encodings must be unchanged after their containers were sized/encoded twice. Also: history independence (encode, edit exported fields, encode again = edit, encode), the previous case's value re-encoded after everything the current case did, decoders run on other constructor-made values in between, constructor-default and hand-built (derived fields unset) values.",
          'Compares outputs only (never internal state); values complete before the first query.',
          "5/C13"),
  "C14": (True,
